@@ -18,10 +18,30 @@ class TokenStream:
 
     eof = Token(TOKEN_EOF, TOKEN_EOF, -1, "")
 
-    def __init__(self, tokens: Iterator[Token], block_depth_carry: int = 0):
+    def __init__(
+        self,
+        tokens: Iterator[Token],
+        block_depth_carry: int = 0,
+        *,
+        parent: Optional[Token] = None,
+    ):
         self.tokens = list(tokens)
         self.pos = 0
         self.block_depth = block_depth_carry
+
+        # The end of stream token points at the end of the text these tokens came
+        # from, so "found end of expression" errors have a position too.
+        if parent is not None:
+            # Tokens of a tag or output expression. `parent` is the expression token.
+            self.eof = Token(
+                TOKEN_EOF,
+                "",
+                parent.start_index + len(parent.value),
+                parent.source,
+            )
+        elif self.tokens:
+            source = self.tokens[-1].source
+            self.eof = Token(TOKEN_EOF, "", len(source), source)
 
     def __next__(self) -> Token:
         return self.next_token()
@@ -132,7 +152,7 @@ class TokenStream:
 
         if eat:
             next(self)
-        return TokenStream(tokenize(token.value, parent_token=token))
+        return TokenStream(tokenize(token.value, parent_token=token), parent=token)
 
     def expect_eos(self) -> None:
         """Raise a syntax error if we're not at the end of the stream."""
